@@ -776,6 +776,49 @@ def wiped_reads(f):
     return out, nw[0]
 
 
+ERRNO_TERM = ("*", ("call", "__errno_location"))
+ERRNO_CONVERSIONS = ("strtol", "strtoul", "strtoll", "strtoull", "strtoimax", "strtoumax", "strtod", "strtof", "strtold")
+
+
+def stale_errno_tests(f):
+    """[(condition element, conversion call)] for tests of errno that judge a strto* conversion made, on some path, without errno
+    having been cleared since the function was entered or since the last other call: the conversion sets errno only when it
+    fails, so the test then sees whatever an earlier failure left there (a valid numeral is rejected after an unrelated ERANGE).
+    May-analysis over {clean, converted-clean, converted-stale, other}; and the number of such tests looked at."""
+    convs = list(f.calls(ERRNO_CONVERSIONS))
+    if not convs:
+        return [], 0
+
+    def tr(st, e):
+        if e.is_assign and e.op == "=" and norm(e.kid(0)) == ERRNO_TERM:
+            return frozenset([("clean", None)]) if norm(e.kid(1)) == ("c", 0) else frozenset([("other", None)])
+        if e.cls == "CallExpr" and e.callee:
+            if e.callee in ERRNO_CONVERSIONS:
+                return frozenset(("conv-ok", e.pos) if k == "clean" or k == "conv-ok" else ("conv-stale", e.pos) for k, _ in st)
+            if e.callee in PURE_LIBC or e.callee.startswith("__builtin") or e.callee in ("__errno_location", "__ctype_b_loc", "isspace", "isdigit"):
+                return st
+            return frozenset([("other", None)])
+        return st
+    sv = Solver(f, frozenset([("entry", None)]), tr, None, lambda a, b: a | b).run()
+    out, n = [], 0
+    bypos = {c.pos: c for c in convs}
+    for b in f.blocks.values():
+        if b.cond is None:
+            continue
+        if not any(L == ERRNO_TERM or R == ERRNO_TERM for op, L, R, _, _ in cond_atoms_(b.cond, True)):
+            continue
+        st = sv.state_before(b.cond)
+        if st is None:
+            continue
+        if any(k.startswith("conv") for k, _ in st):
+            n += 1
+        for k, pos in st:
+            if k == "conv-stale":
+                out.append((b.cond, bypos.get(pos)))
+                break
+    return out, n
+
+
 def imalloc_tests(f):
     """[call] for `imalloc(n, size)` results taken for a failed allocation without regard to n: imalloc answers NULL for n == 0 by
     design, so a NULL is a failure only where n > 0 is known (the IMALLOC macro tests both)."""
@@ -865,6 +908,18 @@ def apply(rep, pid, files, tier):
                                 "for zero records by design", function=f.name, construct="imalloc-zero")
                     if not bad:
                         rep.ok("IMALLOC-zero", "%s: NULL from imalloc is a failure only for a non-zero count" % f.name, f.loc, "%d tests" % ni)
+            # ERRNO-FRESH (no reference needed)
+            if f.file == up or f.file in files:
+                bad, ne = stale_errno_tests(f)
+                if ne:
+                    n += 1
+                    for ce, cv in bad:
+                        rep.bad("ERRNO-FRESH", "%s: `%s`" % (f.name, ce.text[:40]), ce.where,
+                                "this test of errno judges %s, which on some path was made without errno having been set to 0 first: the conversion sets errno only "
+                                "when it fails, so a valid numeral is rejected whenever an earlier failure left ERANGE there" % (cv.text[:40] if cv is not None else "a conversion"),
+                                function=f.name, construct="errno-stale")
+                    if not bad:
+                        rep.ok("ERRNO-FRESH", "%s: errno is cleared before each conversion it is tested after" % f.name, f.loc, "%d tests" % ne)
             # WIPED-READ (no reference needed)
             if f.file == up or f.file in files:
                 bad, nw = wiped_reads(f)
